@@ -479,6 +479,10 @@ def inert_arguments(ctx, rng, ntrees=3):
                             continue
                         try:
                             got = Gm.glob(p_arg, **kw)
+                            if how == 'NOUNIQUE on a single pattern' and not fv & Gm.NOUNIQUE:
+                                # a walk can reach one path by two routes (`**/[ab]/**` through `a` and through `a/b`): NOUNIQUE keeps
+                                # the repeats, that is what it is for - the paths themselves, in order of first appearance, are the same
+                                got = list(dict.fromkeys(got))
                             kwm = dict(kw, flags=kw['flags'] | Gm.REALPATH)
                             gotm = [c for c in cands if Gm.globmatch(c, p_arg, **kwm)]
                             gotc = [c for c in cands if Gm.compile(p_arg, flags=kwm['flags'], **({'exclude': kw['exclude']} if 'exclude' in kw else {})).match(c, root_dir=kw['root_dir'])]
